@@ -210,7 +210,7 @@ class Report:
         return False
 
     def _write_replay(self, label, data, detail):
-        d = os.path.join(VERIF, "replays", self.prop)
+        d = os.path.join(os.environ.get("VERIF_REPLAY_DIR") or os.path.join(VERIF, "replays"), self.prop)
         os.makedirs(d, exist_ok=True)
         path = os.path.join(d, f"{self.ob}.{label}.json".replace("/", "_").replace(" ", "_"))
         with open(path, "w") as f:
@@ -371,8 +371,9 @@ def run_property(prop, tier, seed):
         "wall_s": round(time.time() - t0, 2),
         "violations": len(viol),
     }
-    os.makedirs(os.path.join(VERIF, "evidence"), exist_ok=True)
-    with open(os.path.join(VERIF, "evidence", f"{prop}.json"), "w") as f:
+    evdir = os.environ.get("VERIF_EVIDENCE_DIR") or os.path.join(VERIF, "evidence")  # redirected only by the seeded-change self-test
+    os.makedirs(evdir, exist_ok=True)
+    with open(os.path.join(evdir, f"{prop}.json"), "w") as f:
         json.dump(_jsonable(ev), f, indent=1)
 
     for k in known_hits:
